@@ -19,14 +19,14 @@ import (
 func calleeName(c ssa.CallInstruction) string {
 	com := c.Common()
 	if com.IsInvoke() {
-		return short(com.Method.FullName())
+		return fnName(com.Method.FullName())
 	}
 	if f := com.StaticCallee(); f != nil {
 		if f.Origin() != nil {
 			f = f.Origin()
 		}
 		if obj, ok := f.Object().(*types.Func); ok && obj != nil {
-			return short(obj.FullName())
+			return fnName(obj.FullName())
 		}
 		return short(f.String())
 	}
@@ -131,7 +131,7 @@ func implNames(c ssa.CallInstruction) []string {
 				}
 				obj, _, _ := types.LookupFieldOrMethod(t, true, com.Method.Pkg(), com.Method.Name())
 				if f, ok := obj.(*types.Func); ok {
-					out = append(out, short(f.FullName()))
+					out = append(out, fnName(f.FullName()))
 				}
 				break
 			}
@@ -1317,7 +1317,7 @@ func fnReal(fn *ssa.Function) string {
 		fn = fn.Origin()
 	}
 	if obj, ok := fn.Object().(*types.Func); ok && obj != nil {
-		return short(obj.FullName())
+		return fnName(obj.FullName())
 	}
 	return short(fn.String())
 }
